@@ -1,4 +1,5 @@
 import HeartwoodModel.Model.Wire
+import HeartwoodModel.Model.Frame
 import HeartwoodModel.Driver.Util
 /-! Driver entry for C15.
 
@@ -8,9 +9,12 @@ the raw 35-byte Tor addresses of the input accepted by the real `OnionAddrV3::fr
 
 Output: `ok <re-encoding> lossy=<->|p|a>` (`p`: a ping/pong padding byte was not zero; `a`: the user agent of
 a node announcement was missing and defaulted; the re-encoding is `!` when `wire::serialize`
-would panic), `incomplete` (EOF error), `invalid` (any other error), `panic:<site>`. -/
+would panic), `incomplete` (EOF error), `invalid` (any other error), `panic:<site>`.
+
+Second form `F <stream hex> <cuts> <onion set>`: the production path — the stream is fed to a
+`Deserializer<2097152, Frame<Message>>` split at `cuts`; output `<groups> end=<..> left=<n>` as in C14. -/
 namespace HeartwoodModel.Driver.C15
-open HeartwoodModel.Codec HeartwoodModel.Wire HeartwoodModel.Driver.Util
+open HeartwoodModel.Codec HeartwoodModel.Wire HeartwoodModel.Frame HeartwoodModel.Driver.Util
 
 def toBytes (l : List Nat) : Bytes := l.map UInt8.ofNat
 def ofBytes (b : Bytes) : List Nat := b.map UInt8.toNat
@@ -24,8 +28,46 @@ def short (b : Bytes) : String :=
 def parseSet (s : String) : Option (List Bytes) :=
   if s == "-" then some [] else ((splitOn s ',').mapM hexBytes?).map (·.map toBytes)
 
+def showFrame (f : Frame Msg) : String :=
+  match f.data with
+  | .control (.open s) => s!"c{f.stream}:o{s}"
+  | .control (.close s) => s!"c{f.stream}:x{s}"
+  | .control (.eof s) => s!"c{f.stream}:e{s}"
+  | .git d => s!"t{f.stream}:{short d}"
+  | .gossip m =>
+    match m.serialize? with
+    | some b => s!"g{f.stream}:{short b}"
+    | none => s!"g{f.stream}:!"
+
+def showGroup (g : List (Frame Msg)) : String :=
+  if g.isEmpty then "-" else joinWith ";" (g.map showFrame)
+
+/-- Split `b` at the positions `cuts` (`pos` = bytes already cut). -/
+def chunksOf (b : Bytes) (pos : Nat) : List Nat → Option (List Bytes)
+  | [] => some [b]
+  | c :: cs =>
+    if c < pos || c - pos > b.length then none
+    else (chunksOf (b.drop (c - pos)) c cs).map (b.take (c - pos) :: ·)
+
+def runStream (streamS cutsS onionS : String) : String :=
+  match hexBytes? streamS, nats? cutsS, parseSet onionS with
+  | some stream, some cuts, some onions =>
+    let env : Env := ⟨fun raw => onions.contains raw⟩
+    match chunksOf (toBytes stream) 0 cuts with
+    | none => "bad-op"
+    | some chunks =>
+      match Deser.feed (Frame.decode (decodeMsg env)) 2097152 ⟨[]⟩ chunks with
+      | none => "fuel"
+      | some (groups, s, e) =>
+        let endS := match e with
+          | .more => "more" | .err => "err" | .full => "full" | .panic site => s!"panic:{site}"
+        let gs := if groups.isEmpty then "-" else joinWith "|" (groups.map showGroup)
+        s!"{gs} end={endS} left={s.buf.length}"
+  | _, _, _ => "bad-op"
+
 def run (args : List String) : String :=
   match args with
+  | ["F", streamS, cutsS, onionS] => runStream streamS cutsS onionS
   | [bytesS, onionS, _flag] =>
     match hexBytes? bytesS, parseSet onionS with
     | some bytes, some onions =>
